@@ -36,7 +36,7 @@ CHECKS = {
                 text="one inductive step: rows and faults are independent of every scalar member / uninitialised local pre-state and the invariant is restored, for all events within the bound - hence for event sequences of any length and order",
                 note="reference-free; user C++ assumed pure; counterexamples replayed on [E,E0,E,E]",
                 ref="DESIGN.md 3/C05"),
-    "C06": dict(engine=TV, cat="translation_validation", also=(CH,),
+    "C06": dict(engine=TV, cat="other", also=(CH,),
                 technique="SMT translation validation with a symbolic event store (z3) + CrossHair on process_metadata / the whole pipeline with a symbolic bank string",
                 text="requests = collections the query names with the backend idiom; rows equal; absent collection never dereferenced and fails loudly; bank literal denotes the symbolic bank string on all three backends; malformed declarations/calls rejected; other-backend declarations refused",
                 note="frozen collection table is the oracle; bank strings <=1 char quick / <=2 thorough; N=2/3",
